@@ -1012,3 +1012,11 @@ func Directed(t *rapid.T, want string, ver kmip.ProtocolVersion, o MsgOpts) (msg
 	}
 	return m, true
 }
+
+// CryptoParams draws a fully populated CryptographicParameters (fields of versions 1.0, 1.2 and 1.4).
+func CryptoParams(t *rapid.T) *kmip.CryptographicParameters {
+	g := newG(t, MsgOpts{Alphabet: "xml", TextSafe: true, PopulateAll: true, AllowGated: true})
+	cp := &kmip.CryptographicParameters{}
+	g.fillStruct(reflect.ValueOf(cp).Elem())
+	return cp
+}
